@@ -1290,6 +1290,6 @@ CLAIM = ("Lean theorems, for all factor bases / root tables / block numbers / po
          "and checked profiles; an independent Python oracle judges every reported position against every factor-base prime.")
 LEVEL_NOTE = ("Trusted: Lean kernel (+propext, Classical.choice, Quot.sound); the hand-written model's correspondence to the Rust code "
               "(sampled by the harness in both profiles, not proved); Python integers in the oracle. Panic freedom of the modelled code is "
-              "proved (no_panic, no_panic_rehash, cofactor_no_panic) under named hypotheses. Which positions are reported is outside the model. Dividers "
+              "proved (no_panic, no_panic_rehash, cofactor_no_panic) under named hypotheses. Which positions are reported is modelled per build profile (Model/SieveLog.lean; two of its theorems are _partial). Dividers "
               "routines are taken exact (C08), try_factor64 enters as a named hypothesis.")
 TECHNIQUE = "Lean 4 proof about a hand model + differential correspondence check + spec oracle"
